@@ -8,10 +8,12 @@
 EXTENDS MCLedger, Json
 CONSTANTS FailOdds,    \* simulation: 1 in FailOdds instructions is drawn from all candidates, the others from the succeeding ones
           EndOdds,     \* simulation: a transaction that could end successfully ends with probability 1/EndOdds
-          Weights      \* simulation: sequence of instruction kinds drawn more often (on top of one entry per enabled kind)
+          Weights,     \* simulation: sequence of instruction kinds drawn more often (on top of one entry per enabled kind)
+          Scripts      \* boundary generator: set of [name, items, ops, res]
 VARIABLES hist,        \* finished transactions
           cur,         \* instructions of the running transaction
-          ini          \* projection of the initial ledger
+          ini,         \* projection of the initial ledger
+          sc, pos, phase   \* boundary generator: the script, the position in it, script / probe / close / done
 
 Proj(L) == [bal |-> [a \in Accts |-> [r \in Res |-> [amt |-> Total(r, L.vault[a][r]), ids |-> AllIds(L.vault[a][r])]]],
             sup |-> L.supply,
@@ -29,8 +31,10 @@ Record ==   \* bookkeeping of the step just taken (reads the primed variables of
   ELSE /\ cur' = Append(cur, last'.ins) /\ hist' = hist
 gvars == <<vars, hist, cur, ini>>
 GInit == Init /\ hist = <<>> /\ cur = <<>> /\ ini = Proj(pre)
-GNext == Next /\ Record /\ UNCHANGED ini
-GSpec == GInit /\ [][GNext]_gvars
+NoSc == [name |-> "", items |-> <<>>, ops |-> {}, res |-> {}]
+Idle == sc = NoSc /\ pos = 0 /\ phase = "none"
+GNext == Next /\ Record /\ UNCHANGED <<ini, sc, pos, phase>>
+GSpec == GInit /\ Idle /\ [][GNext]_<<gvars, sc, pos, phase>>
 
 \* ---- seeded simulation.  NOTE: TLC re-evaluates a LET definition at every use, so every random draw is
 \* bound exactly once with  \E x \in {RandomElement(..)}.
@@ -50,8 +54,33 @@ SNext == /\ \E e1 \in {RandomElement(1..EndOdds)}, e2 \in {RandomElement(1..16)}
               IF status = "run" /\ (nins >= MaxInstr \/ (End(Cur).ok /\ e1 = 1) \/ e2 = 1)
               THEN EndTx
               ELSE SStep
-         /\ Record /\ UNCHANGED ini
-SSpec == GInit /\ [][SNext]_gvars
+         /\ Record /\ UNCHANGED <<ini, sc, pos, phase>>
+SSpec == GInit /\ Idle /\ [][SNext]_<<gvars, sc, pos, phase>>
+
+\* ---- boundary generator (BSpec): a scripted prefix (instructions and transaction ends) that brings the ledger into a
+\* state at a limit (worktop = balance, vault partly locked, overlapping proofs, locked bucket on the worktop, burnt id,
+\* failed mint ...), then EVERY candidate instruction of the script's kinds with EVERY argument (amounts 0 .. balance + 1
+\* granule in half-granule steps, all id sets), then a fixed closing sequence that lets a well-formed transaction end.
+\* The full product (limit state) x (instruction kind) x (argument) is enumerated; nothing is sampled.
+bvars == <<gvars, sc, pos, phase>>
+Probes == {i \in UNION {CandOf(Cur, op) : op \in sc.ops} : i.r = "" \/ i.r \in sc.res}
+CloseIns(S) ==
+  IF \E k \in DOMAIN S.np : S.np[k].live THEN I("DropNamedProofs", "", "", 0, {}, 0, "", 0)
+  ELSE IF S.az # <<>> THEN I("DropAuthZoneRegularProofs", "", "", 0, {}, 0, "", 0)
+  ELSE IF \E k \in DOMAIN S.nb : S.nb[k].live
+       THEN I("ReturnToWorktop", "", "", 0, {}, CHOOSE k \in DOMAIN S.nb : S.nb[k].live /\ \A j \in DOMAIN S.nb : S.nb[j].live => k <= j, "", 0)
+  ELSE IF \E r \in Res : S.wt[r].on THEN I("DepositBatch", "a1", "", 0, {}, 0, "", 0)
+  ELSE EndIns
+Do(ins) == IF ins.op = "EndTx" THEN EndTx ELSE Step(ins)
+After == IF status' = "run" THEN "close" ELSE "done"
+BInit == /\ GInit /\ sc \in Scripts /\ pos = 1 /\ phase = IF sc.items = <<>> THEN "probe" ELSE "script"
+BNext == /\ \/ /\ phase = "script" /\ Do(sc.items[pos]) /\ pos' = pos + 1
+               /\ phase' = IF pos = Len(sc.items) THEN "probe" ELSE "script"
+            \/ /\ phase = "probe" /\ (\E ins \in Probes : Step(ins)) /\ phase' = After /\ pos' = pos
+            \/ /\ phase = "close" /\ Do(CloseIns(Cur)) /\ phase' = After /\ pos' = pos
+         /\ Record /\ UNCHANGED <<ini, sc>>
+BSpec == BInit /\ [][BNext]_bvars
+BEmit == phase = "done" => PrintT(<<"B", ToJson([name |-> sc.name, res |-> ResDef, unit |-> Unit, init |-> ini, txs |-> hist])>>)
 
 Done == status \in {"ok", "fail"} /\ ntx = MaxTx
 Emit == Done => PrintT(<<"B", ToJson([res |-> ResDef, unit |-> Unit, init |-> ini, txs |-> hist])>>)
